@@ -40,6 +40,11 @@ pub fn templates() -> Vec<&'static str> {
         "uomConvert($0, 'm', 'ft')", "uomConvert($0, $1, 'kg')", "timestamp($0).getFullYear()", "$0.getHours()", "$0.getSeconds()",
         "$0.getDayOfWeek($1)", "$0 + duration($1)", "f'{$0}-{$1}'", "f'x{$0}'", "$0.splitWhiteSpace()", "$0.matchCaptures($1)",
         "$0.matchReplace($1, $2)", "$0.trimStartMatches($1)",
+        // the remaining built-ins, so that every name of the function table occurs
+        "$0.startsWithI($1)", "$0.endsWithI($1)", "$0.trimStart()", "$0.trimEnd()", "$0.trimEndMatches($1)", "$0.matchReplaceOnce($1, $2)",
+        "$0.getDate()", "$0.getDate($1)", "$0.getDayOfMonth()", "$0.getDayOfYear()", "$0.getDayOfWeek()", "$0.getMinutes($1)",
+        "$0.getMilliseconds()", "$0.getMonth($1)", "$0.getFullYear($1)", "sort([$0, $1])", "$0.sort()", "min($0)", "max($0, $1, $2)",
+        "zip($0, $1)", "uomConvert($0, $1, $2)", "size($0) + size($1)", "pow($0, 2)", "round($0) + floor($1)",
         // has / coalesce (never folded) around foldable material
         "coalesce($0, $1)", "coalesce(null, $0, $1)", "has($0)", "has({'a': $0}.a)", "has({'a': $0}.b)", "coalesce({'a': $0}.b, $1)",
         // macros
